@@ -638,8 +638,10 @@ class Lexer(object):
                 | \\[a-tvwyzA-TVWYZ!-\/:-@\[-`{-~] # escaped chars
                 | \\x[0-9a-fA-F]{2}        # hex_escape_sequence
                 | \\u[0-9a-fA-F]{4}        # unicode_escape_sequence
-                | \\(?:[1-7][0-7]{0,2}|[0-7]{2,3})  # octal_escape_sequence
-                | \\0                      # <NUL> (15.10.2.11)
+                | \\[0-7]                  # octal_escape_sequence / <NUL>: its
+                                           # first digit only (the others are
+                                           # ordinary characters) so that every
+                                           # string matches in one way only
             )*?                            # zero or many times
         ")                                 # must have closing double quote
         |
@@ -650,8 +652,7 @@ class Lexer(object):
                 | \\[a-tvwyzA-TVWYZ!-\/:-@\[-`{-~] # escaped chars
                 | \\x[0-9a-fA-F]{2}        # hex_escape_sequence
                 | \\u[0-9a-fA-F]{4}        # unicode_escape_sequence
-                | \\(?:[1-7][0-7]{0,2}|[0-7]{2,3}) # octal_escape_sequence
-                | \\0                      # <NUL> (15.10.2.11)
+                | \\[0-7]                  # octal_escape_sequence / <NUL>, as above
             )*?                            # zero or many times
         ')                                 # must have closing single quote
     )
